@@ -1236,9 +1236,19 @@ def gen_c_case(rng):
     else:
         ops = list(pal_ops)  # screen defaults: 16 colours, bright_is_bold False under TERM=xterm
     ops.append(["draw"])
-    if rng.random() < 0.3:
-        d2 = rng.choice(DEPTHS)
-        ops += [["props", d2, rng.random() < 0.5], ["draw"]]
+    # history on ONE started screen / ONE terminal: change the terminal properties, draw the same content again
+    cur_d, cur_b = (depth, bib) if order != "default-props" else (16, False)
+    if rng.random() < 0.6:
+        for _ in range(rng.choice([1, 1, 2, 3])):
+            r = rng.random()
+            if r < 0.3:
+                nd, nb = cur_d, not cur_b  # bright_is_bold flip alone
+            elif r < 0.9:
+                nd, nb = rng.choice([d for d in DEPTHS if d != cur_d]), (cur_b if rng.random() < 0.6 else not cur_b)
+            else:
+                nd, nb = cur_d, cur_b  # no-op call
+            ops += [["props", nd, nb], ["draw", "same"] if rng.random() < 0.5 else ["draw"]]
+            cur_d, cur_b = nd, nb
     undefined = [i for i in range(NPOOL) if i not in names and i != 0]
     ncols = rng.randint(4, 12)
     rows = []
@@ -1375,6 +1385,9 @@ def c_eval(case, stats=None):
             attrs.append(arow)
             refs.append(rrow)
         started = False
+        vt = None
+        canv = None
+        drawn_props = None  # (depth, bright_is_bold) in force at the previous draw
         pending = []
         props_since_palette = False  # did a set_terminal_properties call CHANGE something after the last registration?
 
@@ -1430,16 +1443,40 @@ def c_eval(case, stats=None):
                     scr.start()
                     started = True
                 cap.buf.clear()
-                scr.clear()  # every draw is a full repaint onto a fresh terminal model
-                canv = urwid.TextCanvas([bytes(t) for t in texts], [list(a) for a in attrs], maxcol=ncols)
+                # ONE terminal model per screen: it accumulates state over all draws (no reset, no clear(), no
+                # resize), like the real terminal does.  A redraw hands over the same content (equal canvas or
+                # the very same canvas object, as MainLoop does through the canvas cache).
+                if not (len(op) > 1 and op[1] == "same" and canv is not None):
+                    canv = urwid.TextCanvas([bytes(t) for t in texts], [list(a) for a in attrs], maxcol=ncols)
+                else:
+                    cnt("c_redraw_same_canvas_object")
                 scr.draw_screen((ncols, len(rows)), canv)
                 data = "".join(cap.buf).encode(case["enc"], "replace")
-                vt = VT(ncols, len(rows), utf8=case["enc"] == "utf-8")
+                if vt is None:
+                    vt = VT(ncols, len(rows), utf8=case["enc"] == "utf-8")
                 vt.feed(data)
+                redraw = drawn_props is not None
+                changed = redraw and drawn_props != (depth, bib)
+                if redraw:
+                    cnt("c_redraws_same_content")
+                if changed:
+                    cnt("c_redraw_same_content_after_property_change")
+                    od, ob = drawn_props
+                    if od == depth:
+                        cnt("c_redraw_bright_is_bold_flip_only")
+                    elif DEPTHS.index(depth) > DEPTHS.index(od):
+                        cnt("c_redraw_depth_up")
+                    else:
+                        cnt("c_redraw_depth_down")
+                    if not data:
+                        cnt("c_redraw_after_property_change_nothing_sent")
+                old_props, drawn_props = drawn_props, (depth, bib)
                 cnt("c_draws")
                 cnt(f"c_draws_depth_{depth}")
                 cnt(f"c_draws_bright_is_bold_{bib}")
                 stage = "terminal-properties-changed-after-registration" if props_since_palette else "no-terminal-properties-change-after-registration"
+                if redraw:
+                    stage = "redraw-same-content-after-property-change" if changed else "redraw-same-content-no-property-change"
                 prev_exp = None
                 for y in range(len(rows)):
                     for x in range(ncols):
@@ -1483,8 +1520,19 @@ def c_eval(case, stats=None):
                         if prev_exp is not None and prev_exp != exp:
                             cnt("c_pairs_distinct_styles")
                         bad = c_cell_ok(cell, exp, bib)
+                        exp_old = None
+                        if changed:
+                            # what the palette said under the terminal properties of the previous draw
+                            if isinstance(a, urwid.AttrSpec) or kind == "undefined-name":
+                                exp_old = exp
+                            else:
+                                exp_old = M.entry_expect(model[a][0], old_props[0])
+                            if exp_old is not None and c_cell_ok(cell, exp_old, old_props[1]):
+                                cnt("c_redraw_cells_restyled")  # the decoded style really differs from the old one
                         if bad:
-                            if not c_cell_ok(cell, DEFAULT_EXP, bib):
+                            if exp_old is not None and not c_cell_ok(cell, exp_old, old_props[1]):
+                                how = "stale-style-of-previous-terminal-properties"
+                            elif not c_cell_ok(cell, DEFAULT_EXP, bib):
                                 how = "decodes-to-default"
                             elif prev_exp is not None and not c_cell_ok(cell, prev_exp, bib):
                                 how = "keeps-style-of-previous-cell"
